@@ -1592,6 +1592,45 @@ theorem C18_pin_routes : FactsC18.routes = ["root mux.Handle(\"/v1/\", http.Stri
   "v2 mux.Handle(\"DELETE /collections/{collectionId}/points\", withCol(semaDBHandlers.HandleDeletePoints))",
   "v2 mux.Handle(\"POST /collections/{collectionId}/points/search\", withCol(semaDBHandlers.HandleSearchPoints))"] := rfl
 
+/-- the recursion sites the model's `Query.valid`, `Query.validSchema`, `Query.reach` and `Query.live` transcribe: which list
+(`q.And` / `q.Or`) and which filter `Query.Validate`, `Query.ValidateSchema` and `indexManager.Search` (shard/index/search.go)
+hand on, under which case of their switches — `_and` runs / checks the `_and` list, `_or` the `_or` list, a vector / text leaf
+its own filter, and `Validate` (alone) looks at every block and both lists -/
+theorem C18_pin_dispatch : FactsC18.dispatch = [
+  ("models.Query.Validate", "-", "call q.VectorFlat.Validate()"),
+  ("models.Query.Validate", "-", "call q.VectorVamana.Validate()"),
+  ("models.Query.Validate", "-", "call q.Text.Validate()"),
+  ("models.Query.Validate", "-", "call q.String.Validate()"),
+  ("models.Query.Validate", "-", "call q.Integer.Validate()"),
+  ("models.Query.Validate", "-", "call q.Float.Validate()"),
+  ("models.Query.Validate", "-", "call q.StringArray.Validate()"),
+  ("models.Query.Validate", "-", "range q.And"),
+  ("models.Query.Validate", "-", "call subQuery.Validate()"),
+  ("models.Query.Validate", "-", "range q.Or"),
+  ("models.Query.Validate", "-", "call subQuery.Validate()"),
+  ("models.Query.Validate", "case q.StringArray != nil", "range q.StringArray.Value"),
+  ("models.Query.ValidateSchema", "case \"_and\"", "range q.And"),
+  ("models.Query.ValidateSchema", "case \"_and\"", "call subQuery.ValidateSchema(schema)"),
+  ("models.Query.ValidateSchema", "case \"_or\"", "range q.Or"),
+  ("models.Query.ValidateSchema", "case \"_or\"", "call subQuery.ValidateSchema(schema)"),
+  ("models.Query.ValidateSchema", "case IndexTypeVectorFlat", "call q.VectorFlat.Filter.ValidateSchema(schema)"),
+  ("models.Query.ValidateSchema", "case IndexTypeVectorVamana", "call q.VectorVamana.Filter.ValidateSchema(schema)"),
+  ("models.Query.ValidateSchema", "case IndexTypeText", "call q.Text.Filter.ValidateSchema(schema)"),
+  ("index.indexManager.Search", "case \"_and\"", "call im.searchParallel(ctx, q.And, false)"),
+  ("index.indexManager.Search", "case \"_or\"", "call im.searchParallel(ctx, q.Or, true)"),
+  ("index.indexManager.Search", "case \"_id\"", "call im.searchById(q)"),
+  ("index.indexManager.Search", "case models.IndexTypeVectorVamana", "call im.Search(ctx, *q.VectorVamana.Filter)"),
+  ("index.indexManager.Search", "case models.IndexTypeVectorVamana", "call vamanaIndex.Search(ctx, *q.VectorVamana, filter)"),
+  ("index.indexManager.Search", "case models.IndexTypeVectorFlat", "call im.Search(ctx, *q.VectorFlat.Filter)"),
+  ("index.indexManager.Search", "case models.IndexTypeVectorFlat", "call flatIndex.Search(ctx, *q.VectorFlat, filter)"),
+  ("index.indexManager.Search", "case models.IndexTypeText", "call im.Search(ctx, *q.Text.Filter)"),
+  ("index.indexManager.Search", "case models.IndexTypeText", "call textIndex.Search(*q.Text, filter)"),
+  ("index.indexManager.Search", "case models.IndexTypeString", "call stringIndex.Search(*q.String)"),
+  ("index.indexManager.Search", "case models.IndexTypeStringArray", "call stringArrayIndex.Search(*q.StringArray)"),
+  ("index.indexManager.Search", "case models.IndexTypeInteger", "call integerIndex.Search(q.Integer.Value, q.Integer.EndValue, q.Integer.Operator)"),
+  ("index.indexManager.Search", "case models.IndexTypeFloat", "call floatIndex.Search(q.Float.Value, q.Float.EndValue, q.Float.Operator)")
+] := rfl
+
 theorem C18_pin_skeleton : FactsC18.skeleton = [
   ("models.IndexSchema.Validate", "if err != nil"),
   ("models.IndexSchemaValue.Validate", "if v.Type != IndexTypeVectorFlat && v.Type != IndexTypeVectorVamana && v.Type != IndexTypeText && v.Type != IndexTypeString && v.Type != IndexTypeInteger && v.Type != IndexTypeFloat && v.Type != IndexTypeStringArray"),
@@ -1930,6 +1969,48 @@ theorem C18_pin_skeleton : FactsC18.skeleton = [
   ("cluster.ClusterNode.InsertPoints", "if err != nil"),
   ("cluster.ClusterNode.InsertPoints", "if err != nil"),
   ("cluster.ClusterNode.InsertPoints", "if err != nil"),
+  ("index.indexManager.Search", "switch q.Property"),
+  ("index.indexManager.Search", "case \"_and\""),
+  ("index.indexManager.Search", "case \"_or\""),
+  ("index.indexManager.Search", "case \"_id\""),
+  ("index.indexManager.Search", "if !ok"),
+  ("index.indexManager.Search", "if err != nil"),
+  ("index.indexManager.Search", "switch itype"),
+  ("index.indexManager.Search", "case models.IndexTypeVectorVamana"),
+  ("index.indexManager.Search", "case models.IndexTypeVectorFlat"),
+  ("index.indexManager.Search", "case models.IndexTypeText"),
+  ("index.indexManager.Search", "case models.IndexTypeString"),
+  ("index.indexManager.Search", "case models.IndexTypeStringArray"),
+  ("index.indexManager.Search", "case models.IndexTypeInteger"),
+  ("index.indexManager.Search", "case models.IndexTypeFloat"),
+  ("index.indexManager.Search", "default"),
+  ("index.indexManager.Search", "if q.VectorVamana == nil"),
+  ("index.indexManager.Search", "if q.VectorVamana.Filter != nil"),
+  ("index.indexManager.Search", "if err != nil"),
+  ("index.indexManager.Search", "if err != nil"),
+  ("index.indexManager.Search", "if err != nil"),
+  ("index.indexManager.Search", "if q.VectorFlat == nil"),
+  ("index.indexManager.Search", "if q.VectorFlat.Filter != nil"),
+  ("index.indexManager.Search", "if err != nil"),
+  ("index.indexManager.Search", "if err != nil"),
+  ("index.indexManager.Search", "if err != nil"),
+  ("index.indexManager.Search", "if q.Text == nil"),
+  ("index.indexManager.Search", "if q.Text.Filter != nil"),
+  ("index.indexManager.Search", "if err != nil"),
+  ("index.indexManager.Search", "if err != nil"),
+  ("index.indexManager.Search", "if q.String == nil"),
+  ("index.indexManager.Search", "if q.StringArray == nil"),
+  ("index.indexManager.Search", "if q.Integer == nil"),
+  ("index.indexManager.Search", "if q.Float == nil"),
+  ("index.indexManager.searchById", "if err != nil"),
+  ("index.indexManager.searchById", "switch "),
+  ("index.indexManager.searchById", "case q.String != nil"),
+  ("index.indexManager.searchById", "case q.StringArray != nil"),
+  ("index.indexManager.searchById", "default"),
+  ("index.indexManager.searchById", "if q.String.Operator != models.OperatorEquals"),
+  ("index.indexManager.searchById", "if q.StringArray.Operator != models.OperatorContainsAny"),
+  ("index.indexManager.searchById", "if err != nil"),
+  ("index.indexManager.searchById", "if err == nil"),
   ("cluster.ClusterNode.RPCCreateCollection", "if args.Dest != c.MyHostname"),
   ("cluster.ClusterNode.RPCCreateCollection", "if err != nil"),
   ("cluster.ClusterNode.RPCCreateCollection", "if err != nil"),
